@@ -223,6 +223,22 @@ EqualRegionsOutcomes(st, a, b, len) ==
   IN IF \A k \in offs : InCell(st, a + k) /\ InCell(st, b + k) /\ CellsEqual(st, a + k, b + k)
      THEN { Out(ResUnit, 0, st) } ELSE { ErrOut(st) }
 
+\* cursor string readers (trait EncodedStringReader on BinArchiveReader, used by the text archive walk): the bytes
+\* from the cursor up to the terminator (a NUL; for UTF-16 a 00 00 pair, pairs counted from the cursor), decoded; the
+\* cursor then moves past the terminator and on to the next multiple of 4.  No terminator before the end of the data:
+\* error.  Shift-JIS text is compared when it is plain ASCII (the decoder is lossy otherwise); UTF-16 text must be
+\* well-formed (else a decoding error) and is compared unit by unit.
+ReadSjisAtOutcomes(st, a) ==
+  IF Terminated(st.data, a)
+  THEN LET s == CStrAt(st.data, a)
+       IN { Out(IF IsAscii(s) THEN ResVal(s) ELSE ResVal(<<-1>>), AlignUp(a + Len(s) + 1, 4), st) }
+  ELSE { Out(ResErr, AnyPos, st) }
+ReadUtf16AtOutcomes(st, a) ==
+  LET stop == IF a >= 0 /\ a < Size(st) THEN Utf16End(st.data, a + 1) ELSE 0 IN
+  IF stop = 0 THEN { Out(ResErr, AnyPos, st) }
+  ELSE LET u == UnitsOf(SubSeq(st.data, a + 1, stop - 1))
+       IN IF WellFormedUtf16(u) THEN { Out(ResVal(u), AlignUp(stop + 1, 4), st) } ELSE { Out(ResErr, AnyPos, st) }
+
 \* ------------------------------------------------------------------ stream cursors (BinStreams)
 \* A stream call is the positional call at the cursor.  On success the cursor advances by the width of a
 \* value access (label accesses: 0); after a failure the cursor is not constrained, the archive unchanged.
@@ -261,6 +277,8 @@ Outcomes(st, ev) ==
     [] ev.op = "equal_regions"   -> EqualRegionsOutcomes(st, ev.a, ev.t, ev.n)
     [] ev.op = "endian_encode"   -> EndianEncodeOutcomes(st, ev.bs)
     [] ev.op = "endian_decode"   -> EndianDecodeOutcomes(st, ev.bs, ev.n)
+    [] ev.op = "s_read_sjis"     -> ReadSjisAtOutcomes(st, ev.a)
+    [] ev.op = "s_read_utf16"    -> ReadUtf16AtOutcomes(st, ev.a)
     [] ev.op = "s_read_label"    -> { [o EXCEPT !.pos = IF o.res.ok THEN ev.a ELSE AnyPos] : o \in ReadLabelAtOutcomes(st, ev.a, ev.n) }
     \* writer-side allocate: appends when the cursor is at the end, inserts otherwise; the cursor stays
     [] ev.op = "s_allocate"      -> { [o EXCEPT !.pos = IF o.res.ok THEN ev.a ELSE AnyPos] :
